@@ -12,6 +12,10 @@ by finite evaluation of expressions extracted from the type-checked program (no 
              the sum over the three helpers of the locally computed share equals (x_0+x_1+x_2)(y_0+y_1+y_2) as a
              polynomial identity (all nine cross terms once, masks cancel); the share is sent to the LEFT peer,
              received from the RIGHT peer and the result is new(local, received).
+             share_known_value: over the three role arms, the left shares add up to the value and every right share equals
+             the next helper's left share.  reshare (semi-honest): the three role arms (left of target, right of target,
+             target), with each received value replaced by what the peer sends on the matching channel, form a
+             consistent replicated sharing whose sum is the original secret (masks cancel).
   WIRE-carry the initial carry of each circuit entry point: compare_geq, integer_sub, integer_sat_sub start from 1
              (x - y = x + !y + 1; x >= y <=> carry out of that sum), compare_gt, integer_add, integer_sat_add from 0.
   WIRE-result compare_* return the carry that was threaded through the circuit; integer_sub / integer_add return the
@@ -122,6 +126,8 @@ def run(ctx):
     gadget_or(ctx, facts)
     gadget_select(ctx, facts)
     poly_mul(ctx, facts)
+    known_value(ctx, facts)
+    reshare(ctx, facts)
     wiring(ctx, facts)
     ctx.assume("the secure multiplication returns a sharing of the product of its operands (POLY decides this for the semi-honest protocol at the level of the share algebra); `+`, `-`, `!` on shares are the share-wise field operations")
     ctx.assume("share conversion, PRF evaluation, integer multiplication and aggregation are not decided")
@@ -488,3 +494,155 @@ def walk(e):
                 else:
                     for y in x:
                         yield from walk(y)
+
+
+# ---------------------------------------------------------------------------------------------
+def known_value(ctx, facts):
+    ctx.rule("POLY: share_known_value - per Role arm the constructed (left, right) satisfy sum(left_i) = value and right_i = left_{i+1}")
+    b = facts.bodies.get("<secret_sharing::replicated::semi_honest::additive_share::AdditiveShare<V> as protocol::basics::share_known_value::ShareKnownValue<C, V>>::share_known_value")
+    if b is None:
+        ctx.missing("POLY", "share_known_value")
+        return
+    ctx.count(bodies=1)
+    sw = None
+    for bb in sorted(b.live_blocks()):
+        t = b.term(bb)
+        if t["k"] == "switch" and "Context::role" in str(flow.expr_of(b, t["o"])):
+            sw = (bb, t)
+    if sw is None:
+        ctx.missing("POLY", "share_known_value: match on ctx.role()")
+        return
+    arms = {int(v): tgt for v, tgt in sw[1]["ts"]}
+    if len(arms) == 2:
+        arms[({0, 1, 2} - set(arms)).pop()] = sw[1]["else"]
+    shares = {}
+    dom = b.dominators()
+    for bb, t in b.calls():
+        if re.search(r"ReplicatedSecretSharing::new$|AdditiveShare::<V(, N)?>::new$", F.callee(t)[0] or "") and t["d"] == [0]:
+            for role, tgt in arms.items():
+                if flow.dominates(dom, tgt, bb):
+                    def val(e):
+                        e = flow.strip_casts(e)
+                        if e == ("arg", 2):
+                            return Poly.var("v")
+                        if e[0] == "const" and str(e[1]).endswith("::ZERO"):
+                            return Poly()
+                        return None
+                    shares[role] = (val(flow.expr_of(b, t["args"][0])), val(flow.expr_of(b, t["args"][1])), bb)
+    if len(shares) != 3 or any(x[0] is None or x[1] is None for x in shares.values()):
+        ctx.ob("POLY", "share_known_value:arms", False, f"could not read (left, right) for the three roles (found {sorted(shares)})", site_of(b))
+        return
+    total = shares[0][0] + shares[1][0] + shares[2][0]
+    oks = total == Poly.var("v")
+    ctx.ob("POLY", "share_known_value:sum", oks, "left shares add up to the value" if oks else "the three left shares do not add up to the value being shared", site_of(b))
+    okc = all(shares[i][1] == shares[(i + 1) % 3][0] for i in range(3))
+    ctx.ob("POLY", "share_known_value:replicated", okc, "right_i = left_{i+1} for all helpers" if okc else "the shares are not a consistent replicated sharing (a helper's right share differs from its neighbour's left share)", site_of(b))
+
+
+def is_recv(e):
+    """e is `channel.receive(..).await?` (only value-preserving wrappers around the receive call)"""
+    while True:
+        if e[0] == "proj":
+            e = e[1]
+        elif e[0] == "call" and PASS.search(e[1]) and e[2]:
+            e = e[2][0]
+        elif e[0] == "cast":
+            e = e[2]
+        else:
+            break
+    return e[0] == "call" and e[1].endswith("::receive")
+
+
+def reshare(ctx, facts):
+    ctx.rule("POLY: semi-honest reshare - arm L (role = to_helper.peer(Left)), arm R (role = to_helper.peer(Right)) and arm T (target) with received values substituted by the peer's sent value on the matching channel give left/right shares with sum = x_0+x_1+x_2 and right_i = left_{i+1}")
+    b = closure_of(facts, "<secret_sharing::replicated::semi_honest::additive_share::AdditiveShare<F> as protocol::basics::reshare::Reshare<C>>::reshare")
+    if b is None:
+        ctx.missing("POLY", "reshare")
+        return
+    ctx.count(bodies=1)
+    dom = b.dominators()
+    gl = gr = None
+    for g in malsec.guards(b, r"PartialEq::eq$"):
+        e = str(g[1])
+        if "Context::role" in e and "Role::peer" in e:
+            if "'Left')" in e:
+                gl = g
+            elif "'Right')" in e:
+                gr = g
+    if gl is None or gr is None:
+        ctx.missing("POLY", "reshare: role == to_helper.peer(Left/Right) tests")
+        return
+    arm_of = {}
+    oks = []
+    for bb, idx, s in b.iter_assigns():
+        r = s["r"]
+        if r["k"] == "agg" and r.get("vn") == "Ok" and r.get("adt") == "std::result::Result":
+            oks.append((bb, flow.expr_of(b, r["ops"][0], max_depth=90)))
+    for bb, e in oks:
+        if flow.dominates(dom, gl[2][1], bb):
+            arm_of["L"] = (bb, e)
+        elif flow.dominates(dom, gr[2][1], bb):
+            arm_of["R"] = (bb, e)
+        elif flow.dominates(dom, gr[2][0], bb):
+            arm_of["T"] = (bb, e)
+    sends = {}
+    for bb, t in b.calls():
+        if re.search(r"::send$", F.callee(t)[0] or "") and len(t["args"]) == 3:
+            arm = "L" if flow.dominates(dom, gl[2][1], bb) else ("R" if flow.dominates(dom, gr[2][1], bb) else "T")
+            ch = str(flow.expr_of(b, t["args"][0], max_depth=30))
+            sends[arm] = ("Left" if "'Left')" in ch else "Right", flow.expr_of(b, t["args"][2], max_depth=80), "to_helper" in ch)
+    if set(arm_of) != {"L", "R", "T"} or set(sends) != {"L", "R"}:
+        ctx.ob("POLY", "reshare:arms", False, f"expected three result arms and a send in each of the two sending arms (arms {sorted(arm_of)}, sends {sorted(sends)})", site_of(b))
+        return
+    # helper indices relative to target t = 1: L = 0, T = 1, R = 2 ; helper i holds (x_i, x_{i+1}), prss (rho_i, rho_{i+1})
+    IDX = {"L": 0, "T": 1, "R": 2}
+
+    def leaf_for(arm, depth=0):
+        i = IDX[arm]
+        def leaf(e):
+            e = flow.strip_casts(e)
+            if e[0] == "call" and e[1].endswith("::left") and e[2] and e[2][0] == ("upvar", "self"):
+                return Poly.var("x%d" % i)
+            if e[0] == "call" and e[1].endswith("::right") and e[2] and e[2][0] == ("upvar", "self"):
+                return Poly.var("x%d" % ((i + 1) % 3))
+            if e[0] == "proj" and e[1][0] == "call" and e[1][1].endswith("SharedRandomness::generate_fields"):
+                k = [z for z in e[2:] if isinstance(z, int)]
+                if k:
+                    return Poly.var("p%d" % ((i + k[0]) % 3))
+            if is_recv(e):
+                # the value received from peer direction D of to_helper: the other sending arm's message
+                se = str(e)
+                m = re.search(r"recv_channel', \(\('upvar', 'ctx'\), \('call', 'helpers::Role::peer', \(\('upvar', 'to_helper'\), \('agg', \('helpers::Direction', '(Left|Right)'\)", se)
+                if not m or depth > 2:
+                    raise Unknown("receive from an unrecognised channel")
+                src = "L" if m.group(1) == "Left" else "R"      # to_helper.peer(Left) is helper L
+                if src == arm or src not in sends:
+                    raise Unknown("receive from self / non-sending arm")
+                # routing: the source must send to this arm
+                dest_dir, msg, rel = sends[src]
+                dest = "L" if dest_dir == "Left" else "R"
+                if dest != arm or not rel:
+                    raise Unknown(f"arm {src} sends to {dest}, but arm {arm} waits for it")
+                return ev(msg, leaf_for(src, depth + 1))
+            return None
+        return leaf
+    try:
+        sh = {}
+        for arm, (bb, e) in arm_of.items():
+            e = flow.strip_casts(e)
+            if not (e[0] == "call" and re.search(r"::new$", e[1]) and len(e[2]) == 2):
+                raise Unknown(f"arm {arm} does not end in Replicated::new(left, right)")
+            sh[arm] = (ev(e[2][0], leaf_for(arm)), ev(e[2][1], leaf_for(arm)))
+    except Unknown as u:
+        ctx.ob("POLY", "reshare:interpretation", False, f"reshare: {u}", site_of(b))
+        return
+    total = sh["L"][0] + sh["T"][0] + sh["R"][0]
+    want = Poly.var("x0") + Poly.var("x1") + Poly.var("x2")
+    ok = total == want
+    ctx.ob("POLY", "reshare:sum-preserved", ok, "new left shares add up to the old secret (masks cancel)" if ok else "reshared secret differs from the original: sum of new shares minus secret = " + " ".join("%+d*%s" % (c, "*".join(m) or "1") for m, c in sorted((total - want).items())[:6]), site_of(b, arm_of["L"][0]))
+    order = ["L", "T", "R"]
+    okc = all(sh[order[i]][1] == sh[order[(i + 1) % 3]][0] for i in range(3))
+    ctx.ob("POLY", "reshare:replicated", okc, "right_i = left_{i+1} for all helpers" if okc else "the reshared values are not a consistent replicated sharing", site_of(b, arm_of["T"][0]))
+    # the target's new shares must be fresh randomness only (it learns nothing, contributes nothing)
+    okt = all(all(v.startswith("p") for m in p for v in m) for p in sh["T"])
+    ctx.ob("POLY", "reshare:target-uses-only-prss", okt, "the target's new shares are PRSS values" if okt else "the target helper's new shares depend on its old shares", site_of(b, arm_of["T"][0]))
